@@ -24,6 +24,33 @@ def roundtrip(s, dc, ns, ctx):
     return text, stack
 
 
+def guarded_roundtrip(s, dc, ns, ctx):
+    """evaluating a string literal is immediate; a run that does not come back within 10 s (then 60 s) did not push the string"""
+    for limit in (10, 60):
+        try:
+            with sandbox.watchdog(limit):
+                return roundtrip(s, dc, ns, ctx)
+        except sandbox.CaseTimeout:
+            continue
+    raise RuntimeError("evaluating the quoted text does not terminate (60 s)")
+
+
+def other_kinds_first(s, dc, ns):
+    """history step: literals of the OTHER kinds with the same body text are evaluated first in this process"""
+    from vyxal.transpile import transpile
+
+    for wrap in ("«%s«", "»%s»"):
+        if wrap[0] in s:
+            continue
+        try:
+            with sandbox.watchdog(10):
+                ns["stack"] = []
+                exec(transpile(wrap % s, dc), ns)
+        except BaseException as e:  # noqa
+            if isinstance(e, KeyboardInterrupt):
+                raise
+
+
 def classify(s, dc):
     cls = []
     if "\\" in s:
@@ -59,10 +86,12 @@ def _shard(args):
                 n += 1
                 part.outcome(classify(s, dc))
                 try:
-                    if history:
+                    if history == "kinds":
+                        other_kinds_first(s, dc, ns)
+                    elif history:
                         # history of two evaluations in one process: the same literal first with the OTHER compression setting
-                        roundtrip(s, not dc, ns, ctx)
-                    text, stack = roundtrip(s, dc, ns, ctx)
+                        guarded_roundtrip(s, not dc, ns, ctx)
+                    text, stack = guarded_roundtrip(s, dc, ns, ctx)
                     ok = len(stack) == 1 and stack[0] == s and type(stack[0]) is str
                     obs = stack
                 except BaseException as e:  # noqa
@@ -72,11 +101,12 @@ def _shard(args):
                 if not ok:
                     part.violation("string", {"string": s, "dict_compress": dc, "alphabet": alphabet_name, "quoted": text},
                                    "quote/evaluate round trip differs (dict_compress=%s)" % dc,
-                                   {"class": classify(s, dc), "dict_compress": dc, "after_other_setting": bool(history)}, [s],
+                                   {"class": classify(s, dc), "dict_compress": dc, "after_other_setting": bool(history) and history != "kinds",
+                                    "after_other_kinds": history == "kinds"}, [s],
                                    obs if isinstance(obs, str) else [repr(x) for x in obs], size=len(s))
     part.count(n)
     part.d["nontrivial_n"] += n
-    part.section("%s_len<=%d_dc=%s%s" % (alphabet_name, maxlen, dc, "_after_other_setting" if history else ""), strings=n)
+    part.section("%s_len<=%d_dc=%s%s" % (alphabet_name, maxlen, dc, ("_after_other_kinds" if history == "kinds" else "_after_other_setting") if history else ""), strings=n)
     return part.data()
 
 
@@ -102,6 +132,10 @@ def run(tier, seed):
     shards += [([c], "codepage", 2, False, True) for c in cp]
     shards += [([c], "ascii", 2, True, True) for c in ASCII]
     shards += [([c], "esc", 3, False, True) for c in ESC]
+    # ... and a compressed-string / compressed-number literal with the same body first (a cache keyed on the body alone)
+    shards += [([c], "codepage", 2, False, "kinds") for c in cp]
+    shards += [([c], "ascii", 2, True, "kinds") for c in ASCII]
+    shards += [([c], "esc", 3, False, "kinds") for c in ESC]
     shards.append(([""], "esc", 1, False))
     shards.append(([""], "esc", 1, True))
     explore.pmap(_shard, shards, rep, seed)
@@ -117,7 +151,7 @@ def run(tier, seed):
     rep.extra["allow_skips"] = True
     rep.rule = ("all strings of length <=3 over the escape-relevant set %r (compression off; ASCII ones also on); all "
                 "strings of length <=%d over the 256-character code page, compression off; all printable-ASCII strings "
-                "of length <=%d, compression on; plus two-step histories (the same literal first evaluated with the other compression setting in the same process) for all strings <=2 over the code page / ASCII and <=3 over the escape set. Every string is distinct and counts as non-trivial." % (
+                "of length <=%d, compression on; plus two-step histories (the same literal first evaluated with the other compression setting in the same process) for all strings <=2 over the code page / ASCII and <=3 over the escape set, and the same sets after a compressed-string and a compressed-number literal with the same body text. Every string is distinct and counts as non-trivial." % (
                     "".join(ESC), L, 3))
     import random
 
